@@ -1,3 +1,4 @@
+use crate::chunk::read_chunk_bytes;
 use crate::chunk_discovery::ChunkDiscovery;
 use crate::chunk_header::ChunkHeader;
 use crate::chunks::{
@@ -389,13 +390,11 @@ impl WmoGroupParser {
 }
 
 /// Read chunk data as bytes
-fn read_chunk_data<R: Read>(
+fn read_chunk_data<R: Read + Seek>(
     reader: &mut R,
     size: u32,
 ) -> std::result::Result<Vec<u8>, Box<dyn std::error::Error>> {
-    let mut data = vec![0u8; size as usize];
-    reader.read_exact(&mut data)?;
-    Ok(data)
+    Ok(read_chunk_bytes(reader, size)?)
 }
 
 /// Parse nested chunks within MOGP data
